@@ -22,16 +22,23 @@ func init() {
 
 // c14Op is one step of a buffer history. K:
 //
-//	push v | pop | peek | upd v | clear | elems | restore vs | json | jsonstruct | query
+//	push v | pop | peek | upd v | clear | elems | snap | restore vs | json | jsonstruct | save | load | query
+//
+// json/jsonstruct: marshal the live buffer and unmarshal into a target buffer
+// that is a zero Buffer when Stale is empty, else a live buffer with another
+// name, capacity len(Stale) and the Stale elements in it. save keeps the JSON
+// form of the live buffer; load unmarshals the kept form into the live buffer
+// (a checkpoint loaded into an already-built, possibly non-empty component).
 type c14Op struct {
-	K    string `json:"k"`
-	V    int    `json:"v,omitempty"`
-	Vs   []int  `json:"vs,omitempty"`
-	Swap bool   `json:"swap,omitempty"` // json ops: continue the history on the restored copy
+	K     string `json:"k"`
+	V     int    `json:"v,omitempty"`
+	Vs    []int  `json:"vs,omitempty"`
+	Stale []int  `json:"stale,omitempty"`
+	Swap  bool   `json:"swap,omitempty"` // json ops: continue the history on the restored copy
 }
 
 type c14Case struct {
-	Typ  string  `json:"typ"` // element type: "int" or "string"
+	Typ  string  `json:"typ"` // element type: "int", "string" or "rec"
 	Cap  int     `json:"cap"`
 	Name string  `json:"name"`
 	Ops  []c14Op `json:"ops"`
@@ -47,23 +54,84 @@ func c14Str(v int) string {
 	case 2:
 		return "é✓<&>"
 	case 3:
-		return "\x00\n "
+		return "\x00\n "
 	default:
 		return fmt.Sprintf("s%d", v)
 	}
 }
 
+// c14Rec is the third element type: a plain-data struct (as component states
+// hold) with an omitempty scalar, an omitempty map and a nested slice.
+type c14Rec struct {
+	ID   int            `json:"id"`
+	Opt  int            `json:"opt,omitempty"`
+	Tags map[string]int `json:"tags,omitempty"`
+	Path []int          `json:"path"`
+}
+
+// c14MkRec builds a fresh record (fresh map and slice) for a drawn value; 0 is
+// the zero value. Maps are nil or non-empty (an empty non-nil map does not
+// survive its own omitempty encoding, which is not the buffer's business).
+func c14MkRec(v int) c14Rec {
+	switch v {
+	case 0:
+		return c14Rec{}
+	case 1:
+		return c14Rec{ID: 1}
+	case 2:
+		return c14Rec{ID: 2, Opt: 5}
+	case 3:
+		return c14Rec{ID: 3, Tags: map[string]int{"a": 1}}
+	case 4:
+		return c14Rec{ID: 4, Opt: 7, Tags: map[string]int{"b": 2, "c": 3}, Path: []int{1, 2, 3}}
+	case 5:
+		return c14Rec{ID: 5, Path: []int{9}}
+	case 6:
+		return c14Rec{Opt: 1}
+	case 7:
+		return c14Rec{ID: 7, Tags: map[string]int{"a": 9}, Path: []int{4, 5}}
+	case 8:
+		return c14Rec{ID: 8, Path: []int{1}}
+	default:
+		return c14Rec{ID: v, Opt: 9, Tags: map[string]int{"z": 0}}
+	}
+}
+
+func c14EqRec(a, b c14Rec) bool {
+	if a.ID != b.ID || a.Opt != b.Opt || len(a.Tags) != len(b.Tags) || len(a.Path) != len(b.Path) {
+		return false
+	}
+	for k, v := range a.Tags {
+		if w, ok := b.Tags[k]; !ok || w != v {
+			return false
+		}
+	}
+	for i := range a.Path {
+		if a.Path[i] != b.Path[i] {
+			return false
+		}
+	}
+	return true
+}
+
 func genC14(rt *rapid.T) c14Case {
 	c := c14Case{
-		Typ:  rapid.SampledFrom([]string{"int", "string"}).Draw(rt, "typ"),
+		Typ:  rapid.SampledFrom([]string{"rec", "int", "string", "rec"}).Draw(rt, "typ"),
 		Cap:  rapid.SampledFrom([]int{0, 1, 1, 2, 2, 3, 3, 4, 5, 6}).Draw(rt, "cap"),
 		Name: rapid.SampledFrom([]string{"", "B", "Comp.Port.Incoming", "名\"x"}).Draw(rt, "name"),
 	}
 	kinds := []string{
 		"push", "push", "push", "push", "push", "push",
 		"pop", "pop", "pop", "pop",
-		"peek", "upd", "upd", "clear", "elems", "restore",
-		"json", "jsonstruct", "query",
+		"peek", "upd", "upd", "upd", "clear", "elems", "snap", "restore",
+		"json", "jsonstruct", "save", "load", "load", "query",
+	}
+	vals := func(rt *rapid.T, n int, label string) []int {
+		out := make([]int, n)
+		for j := range out {
+			out[j] = rapid.IntRange(0, 9).Draw(rt, label)
+		}
+		return out
 	}
 	opGen := rapid.Custom(func(rt *rapid.T) c14Op {
 		op := c14Op{K: rapid.SampledFrom(kinds).Draw(rt, "k")}
@@ -76,12 +144,12 @@ func genC14(rt *rapid.T) c14Case {
 			if m > c.Cap && rapid.IntRange(0, 2).Draw(rt, "keepOver") != 0 {
 				m = rapid.IntRange(0, c.Cap).Draw(rt, "len2")
 			}
-			op.Vs = make([]int, m)
-			for j := range op.Vs {
-				op.Vs[j] = rapid.IntRange(0, 9).Draw(rt, "rv")
-			}
+			op.Vs = vals(rt, m, "rv")
 		case "json", "jsonstruct":
 			op.Swap = rapid.Bool().Draw(rt, "swap")
+			if rapid.Bool().Draw(rt, "liveTarget") {
+				op.Stale = vals(rt, rapid.IntRange(1, 4).Draw(rt, "nstale"), "sv")
+			}
 		}
 		return op
 	})
@@ -114,34 +182,46 @@ func c14Restore[T any](b *queueing.Buffer[T], vs []T) (refused bool, how string)
 	return refused, how
 }
 
-func runC14[T comparable](s *kit.Session, f kit.Failer, c c14Case, conv func(int) T, sentinel T) {
+// runC14 interprets one history. The model holds the drawn values (ints); mk
+// builds a fresh element for a value, so the model never shares maps or slices
+// with the buffer under test.
+func runC14[T any](s *kit.Session, f kit.Failer, c c14Case, mk func(int) T, eq func(a, b T) bool, sentinel T) {
 	var zero T
 	buf := queueing.NewBuffer[T](c.Name, c.Cap)
 	b := &buf
-	model := []T{}
+	model := []int{}
 
 	var (
 		pops, wrapped, refusedPush, jsonN, jsonStructN, restoreN, restoreOver int
-		clearNonEmpty, updNonEmpty, popEmpty, reachedFull, maxSize            int
+		clearNonEmpty, updNonEmpty, popEmpty, reachedFull                     int
+		liveTarget, liveTargetNonEmptyData, loads, loadsIntoNonEmpty          int
+		snapHeldOverUpd, snaps                                                int
 	)
 
-	eq := func(a, b []T) bool {
-		if len(a) != len(b) {
+	same := func(got []T, want []int) bool {
+		if len(got) != len(want) {
 			return false
 		}
-		for i := range a {
-			if a[i] != b[i] {
+		for i := range got {
+			if !eq(got[i], mk(want[i])) {
 				return false
 			}
 		}
 		return true
 	}
+	show := func(want []int) []T {
+		out := make([]T, len(want))
+		for i, v := range want {
+			out[i] = mk(v)
+		}
+		return out
+	}
 
-	// agree compares every observer of the buffer with the model.
+	// agree compares every observer of a buffer with (name, capacity, contents).
 	agree := func(i int, op c14Op, bb *queueing.Buffer[T], who string) bool {
 		want0 := zero
 		if len(model) > 0 {
-			want0 = model[0]
+			want0 = mk(model[0])
 		}
 		switch {
 		case bb.Name() != c.Name:
@@ -154,10 +234,10 @@ func runC14[T comparable](s *kit.Session, f kit.Failer, c c14Case, conv func(int
 			s.Fail(f, c, "over-capacity", "op %d %+v: %s Size()=%d > Capacity()=%d", i, op, who, bb.Size(), bb.Capacity())
 		case bb.CanPush() != (len(model) < c.Cap):
 			s.Fail(f, c, "canpush", "op %d %+v: %s CanPush()=%v with %d/%d elements", i, op, who, bb.CanPush(), len(model), c.Cap)
-		case bb.Peek() != want0:
-			s.Fail(f, c, "peek", "op %d %+v: %s Peek()=%v want %v (model %v)", i, op, who, bb.Peek(), want0, model)
-		case !eq(bb.Elements(), model):
-			s.Fail(f, c, "contents", "op %d %+v: %s Elements()=%v want %v", i, op, who, bb.Elements(), model)
+		case !eq(bb.Peek(), want0):
+			s.Fail(f, c, "peek", "op %d %+v: %s Peek()=%+v want %+v (model %v)", i, op, who, bb.Peek(), want0, model)
+		case !same(bb.Elements(), model):
+			s.Fail(f, c, "contents", "op %d %+v: %s Elements()=%+v want %+v", i, op, who, bb.Elements(), show(model))
 		default:
 			return true
 		}
@@ -168,11 +248,19 @@ func runC14[T comparable](s *kit.Session, f kit.Failer, c c14Case, conv func(int
 		return
 	}
 
+	// a snapshot taken with Elements() and kept: "returns a copy" => later
+	// operations on the buffer must not show through it
+	var held []T
+	var heldWant []int
+	heldAt := -1
+	// the saved JSON form (checkpoint) and the contents it describes
+	var saved []byte
+	var savedModel []int
+
 	for i, op := range c.Ops {
 		switch op.K {
 		case "push":
-			v := conv(op.V)
-			ok, sig, msg := kit.Guard(func() { b.PushTyped(v) })
+			ok, sig, msg := kit.Guard(func() { b.PushTyped(mk(op.V)) })
 			if len(model) < c.Cap {
 				if !ok {
 					s.Fail(f, c, sig, "op %d push into %d/%d buffer panicked: %s", i, len(model), c.Cap, msg)
@@ -181,7 +269,7 @@ func runC14[T comparable](s *kit.Session, f kit.Failer, c c14Case, conv func(int
 				if pops > 0 && len(model) > 0 {
 					wrapped++
 				}
-				model = append(model, v)
+				model = append(model[:len(model):len(model)], op.V)
 			} else {
 				// documented: "It panics if the buffer is already at capacity."
 				if ok {
@@ -199,41 +287,43 @@ func runC14[T comparable](s *kit.Session, f kit.Failer, c c14Case, conv func(int
 			}
 			want := zero
 			if len(model) > 0 {
-				want = model[0]
+				want = mk(model[0])
 				model = model[1:]
 				pops++
 			} else {
 				popEmpty++
 			}
-			if got != want {
-				s.Fail(f, c, "pop-order", "op %d Pop()=%v want %v (rest of model %v)", i, got, want, model)
+			if !eq(got, want) {
+				s.Fail(f, c, "pop-order", "op %d Pop()=%+v want %+v (rest of model %v)", i, got, want, model)
 				return
 			}
 		case "peek":
 			// Peek is compared in agree(); peeking twice must not consume.
 			_ = b.Peek()
 		case "upd":
-			v := conv(op.V)
-			ok, sig, msg := kit.Guard(func() { b.UpdateFront(v) })
+			ok, sig, msg := kit.Guard(func() { b.UpdateFront(mk(op.V)) })
 			if !ok {
 				s.Fail(f, c, sig, "op %d UpdateFront panicked: %s", i, msg)
 				return
 			}
 			if len(model) > 0 {
 				// copy so that earlier snapshots of the model are not touched
-				model = append([]T{v}, model[1:]...)
+				model = append([]int{op.V}, model[1:]...)
 				updNonEmpty++
+				if held != nil && len(heldWant) > 0 {
+					snapHeldOverUpd++
+				}
 			}
 		case "clear":
 			if len(model) > 0 {
 				clearNonEmpty++
 			}
 			b.Clear()
-			model = []T{}
+			model = []int{}
 		case "elems":
 			e := b.Elements()
-			if !eq(e, model) {
-				s.Fail(f, c, "contents", "op %d Elements()=%v want %v", i, e, model)
+			if !same(e, model) {
+				s.Fail(f, c, "contents", "op %d Elements()=%+v want %+v", i, e, show(model))
 				return
 			}
 			// documented: "mutating the returned slice has no effect on the buffer"
@@ -242,11 +332,13 @@ func runC14[T comparable](s *kit.Session, f kit.Failer, c c14Case, conv func(int
 			}
 			e = append(e, sentinel, sentinel)
 			_ = e
+		case "snap":
+			held = b.Elements()
+			heldWant = append([]int{}, model...)
+			heldAt = i
+			snaps++
 		case "restore":
-			vs := make([]T, len(op.Vs))
-			for j, x := range op.Vs {
-				vs[j] = conv(x)
-			}
+			vs := show(op.Vs)
 			refused, how := c14Restore(b, vs)
 			if len(vs) > c.Cap {
 				// documented: "panics if the elements exceed the buffer's capacity"
@@ -260,17 +352,34 @@ func runC14[T comparable](s *kit.Session, f kit.Failer, c c14Case, conv func(int
 					s.Fail(f, c, "restore-refused", "op %d Restore of %d elements into capacity %d refused: %s", i, len(vs), c.Cap, how)
 					return
 				}
-				model = append([]T{}, vs...)
+				model = append([]int{}, op.Vs...)
 				restoreN++
 			}
 		case "json", "jsonstruct":
+			// target of the restore: a zero Buffer, or a live one with another
+			// name/capacity that already holds elements
+			target := func() queueing.Buffer[T] {
+				if len(op.Stale) == 0 {
+					var z queueing.Buffer[T]
+					return z
+				}
+				tb := queueing.NewBuffer[T]("stale."+c.Name, len(op.Stale))
+				for _, v := range op.Stale {
+					tb.PushTyped(mk(v))
+				}
+				liveTarget++
+				if len(model) > 0 {
+					liveTargetNonEmptyData++
+				}
+				return tb
+			}
 			var fresh *queueing.Buffer[T]
 			var data []byte
 			var err error
 			if op.K == "json" {
 				data, err = json.Marshal(b)
 				if err == nil {
-					var nb queueing.Buffer[T]
+					nb := target()
 					err = json.Unmarshal(data, &nb)
 					fresh = &nb
 				}
@@ -280,7 +389,7 @@ func runC14[T comparable](s *kit.Session, f kit.Failer, c c14Case, conv func(int
 				w := c14Wrap[T]{Pre: 7, B: *b, Post: "x"}
 				data, err = json.Marshal(w)
 				if err == nil {
-					var nw c14Wrap[T]
+					nw := c14Wrap[T]{Pre: 1, B: target(), Post: "stale"}
 					err = json.Unmarshal(data, &nw)
 					fresh = &nw.B
 					if err == nil && (nw.Pre != 7 || nw.Post != "x") {
@@ -294,22 +403,51 @@ func runC14[T comparable](s *kit.Session, f kit.Failer, c c14Case, conv func(int
 				s.Fail(f, c, "json-error", "op %d %s: %v (data %s)", i, op.K, err, data)
 				return
 			}
-			if !agree(i, op, fresh, "restored copy from "+string(data)) {
+			who := "restored copy from " + string(data)
+			if len(op.Stale) > 0 {
+				who = fmt.Sprintf("copy restored into a live buffer holding %+v from %s", show(op.Stale), data)
+			}
+			if !agree(i, op, fresh, who) {
 				return
 			}
 			if op.Swap {
 				b = fresh
 			}
+		case "save":
+			var err error
+			if saved, err = json.Marshal(b); err != nil {
+				s.Fail(f, c, "json-error", "op %d save: %v", i, err)
+				return
+			}
+			savedModel = append([]int{}, model...)
+		case "load":
+			if saved == nil {
+				break
+			}
+			before := show(model)
+			if err := json.Unmarshal(saved, b); err != nil {
+				s.Fail(f, c, "json-error", "op %d load of %s: %v", i, saved, err)
+				return
+			}
+			loads++
+			if len(model) > 0 {
+				loadsIntoNonEmpty++
+			}
+			model = append([]int{}, savedModel...)
+			if !agree(i, op, b, fmt.Sprintf("live buffer (held %+v) after loading %s", before, saved)) {
+				return
+			}
 		case "query":
 			// all observers are compared below
-		}
-		if len(model) > maxSize {
-			maxSize = len(model)
 		}
 		if c.Cap > 0 && len(model) == c.Cap {
 			reachedFull++
 		}
 		if !agree(i, op, b, "buffer") {
+			return
+		}
+		if held != nil && !same(held, heldWant) {
+			s.Fail(f, c, "snapshot-aliased", "op %d %+v: the slice returned by Elements() at op %d now reads %+v, it was %+v", i, op, heldAt, held, show(heldWant))
 			return
 		}
 	}
@@ -325,31 +463,41 @@ func runC14[T comparable](s *kit.Session, f kit.Failer, c c14Case, conv func(int
 	add(reachedFull, "reached-full")
 	add(jsonN, "json")
 	add(jsonStructN, "json-in-struct")
+	add(liveTarget, "json-into-live-buffer")
+	add(liveTargetNonEmptyData, "json-nonempty-into-live-buffer")
+	add(loads, "load-saved")
+	add(loadsIntoNonEmpty, "load-saved-into-nonempty")
 	add(restoreN, "restore")
 	add(restoreOver, "restore-over-refused")
 	add(clearNonEmpty, "clear-nonempty")
 	add(updNonEmpty, "updatefront-nonempty")
+	add(snaps, "snapshot-held")
+	add(snapHeldOverUpd, "snapshot-held-over-updatefront")
 	add(popEmpty, "pop-empty")
-	nontrivial := refusedPush > 0 && (jsonN+jsonStructN+restoreN) > 0 && (wrapped > 0 || c.Cap <= 1)
+	nontrivial := refusedPush > 0 && (jsonN+jsonStructN+restoreN+loads) > 0 && (wrapped > 0 || c.Cap <= 1)
 	s.Note(c, nontrivial, classes...)
 }
 
 func TestC14Buffer(t *testing.T) {
 	s := kit.Begin(t, "C14", "buffer",
-		"history of <=40 ops on queueing.Buffer[int] or Buffer[string] (elements drawn from 10 values incl. the zero value; strings with quotes/escapes/non-ASCII, valid UTF-8 only), "+
+		"history of <=40 ops on queueing.Buffer[int], Buffer[string] or Buffer[rec] (rec = struct{id; opt omitempty; tags map omitempty; path []int}; elements drawn from 10 values incl. the zero value; strings with quotes/escapes/non-ASCII, valid UTF-8 only; maps nil or non-empty), "+
 			"capacity in {0..6} weighted to 1-3, names incl. empty and non-ASCII; ops: PushTyped (on a full buffer the documented panic is required and nothing may change), Pop, Peek, UpdateFront, Clear, "+
-			"Elements (+ mutate and append to the returned slice), Restore (<=cap accepted; >cap must be refused = panic or error, nothing changes), JSON marshal->unmarshal into a zero Buffer, "+
-			"JSON of a struct holding the Buffer by value between two other fields; after a JSON op the history continues on the restored copy or on the original (drawn). "+
-			"Oracle: slice model; after every op Name, Capacity, Size<=Capacity, CanPush, Peek, Elements of the live buffer (and of each restored copy) equal the model; Pop returns model front or zero value. "+
-			"Non-trivial: a push was refused on a full buffer AND a JSON/Restore happened AND (a push landed after an earlier pop on a non-empty buffer [slice window moved] OR capacity<=1)")
+			"Elements (+ mutate and append to the returned slice), Elements kept as a held snapshot (must keep reading the same after every later op), Restore (<=cap accepted; >cap must be refused = panic or error, nothing changes), "+
+			"JSON marshal->unmarshal into a zero Buffer or into a live buffer of another name/capacity that holds 1-4 stale elements, the same with the Buffer held by value in a struct between two other fields, "+
+			"save (keep the JSON form) / load (unmarshal the kept form into the live, possibly non-empty buffer); after a JSON op the history continues on the restored copy or on the original (drawn). "+
+			"Oracle: model of drawn values; elements are compared field by field with freshly built expected values (no sharing of maps/slices with the buffer); after every op Name, Capacity, Size<=Capacity, CanPush, Peek, Elements of the live buffer (and of each restored copy) equal the model; Pop returns model front or zero value. "+
+			"Non-trivial: a push was refused on a full buffer AND a JSON/Restore/load happened AND (a push landed after an earlier pop on a non-empty buffer [slice window moved] OR capacity<=1)")
 	defer s.End()
-	s.Assume("trusts encoding/json and reflect; Restore overflow is accepted as refused when it panics (current doc) or returns a non-nil error")
+	s.Assume("trusts encoding/json and reflect; Restore overflow is accepted as refused when it panics (current doc) or returns a non-nil error; element types are plain data whose own JSON encoding round-trips (no empty non-nil omitempty maps)")
 
 	run := func(f kit.Failer, c c14Case) {
-		if c.Typ == "string" {
-			runC14[string](s, f, c, c14Str, "\xffSENTINEL")
-		} else {
-			runC14[int](s, f, c, func(v int) int { return v }, -12345)
+		switch c.Typ {
+		case "string":
+			runC14[string](s, f, c, c14Str, func(a, b string) bool { return a == b }, "\xffSENTINEL")
+		case "rec":
+			runC14[c14Rec](s, f, c, c14MkRec, c14EqRec, c14Rec{ID: -12345, Opt: -1})
+		default:
+			runC14[int](s, f, c, func(v int) int { return v }, func(a, b int) bool { return a == b }, -12345)
 		}
 	}
 
